@@ -519,3 +519,28 @@ func init() {
 		}, map[string]LT{"types.VestingQueue": "VQ"}),
 	)
 }
+
+func init() {
+	// ---- keeper/keeper.go: the four functions through which a message moves coins; the handler
+	// units record a call of them as ONE effect (`payPlaceBidFee`, …), Proofs/Tie/Fees.lean ties what
+	// the interpreter does for that effect to the bank / distribution calls the function makes
+	kctx := []gparam{{Go: "k", T: "Keeper"}, {Go: "ctx"}}
+	par := gparam{Go: "params__", T: "Params", Oracle: true}
+	fee := map[string]callSpec{
+		"k.Params.Get":                    {Value: V{"(params__, false)", "(Params × Err)"}},
+		"k.distrKeeper.FundCommunityPool": {Effect: "fundPool", Args: []int{1, 2}},
+	}
+	send := map[string]callSpec{"k.bankKeeper.SendCoins": {Effect: "sendCoins", Args: []int{1, 2, 3}}}
+	units = append(units,
+		Unit{Group: "Fees", Name: "PayCreationFee", Pkg: keeperP, Recv: "Keeper", RecvLean: "Keeper", Func: "PayCreationFee",
+			Params: append(append([]gparam{}, kctx...), gparam{Go: "auctioneerAddr", T: "Acc"}, par), Ret: []LT{"Err"}, EffectsOn: true, Calls: fee},
+		Unit{Group: "Fees", Name: "PayPlaceBidFee", Pkg: keeperP, Recv: "Keeper", RecvLean: "Keeper", Func: "PayPlaceBidFee",
+			Params: append(append([]gparam{}, kctx...), gparam{Go: "bidderAddr", T: "Acc"}, par), Ret: []LT{"Err"}, EffectsOn: true, Calls: fee},
+		Unit{Group: "Fees", Name: "ReserveSellingCoin", Pkg: keeperP, Recv: "Keeper", RecvLean: "Keeper", Func: "ReserveSellingCoin",
+			Params: append(append([]gparam{}, kctx...), gparam{Go: "auctionId", T: "Int"}, gparam{Go: "auctioneerAddr", T: "Acc"}, gparam{Go: "sellingCoin", T: "Coin"}),
+			Ret:    []LT{"Err"}, EffectsOn: true, Calls: send},
+		Unit{Group: "Fees", Name: "ReservePayingCoin", Pkg: keeperP, Recv: "Keeper", RecvLean: "Keeper", Func: "ReservePayingCoin",
+			Params: append(append([]gparam{}, kctx...), gparam{Go: "auctionId", T: "Int"}, gparam{Go: "bidderAddr", T: "Acc"}, gparam{Go: "payingCoin", T: "Coin"}),
+			Ret:    []LT{"Err"}, EffectsOn: true, Calls: send},
+	)
+}
